@@ -276,8 +276,8 @@ Qed.
 
 Local Open Scope Z_scope.
 
-Ltac q2z := unfold Qle, Qlt, Qplus, Qminus, Qopp, Qmult, e_up, e_dn, slack47; cbn [Qnum Qden];
-            rewrite ?Pos2Z.inj_mul, ?Z2Pos.id by lia.
+Ltac q2z' := unfold Qminus; unfold Qle, Qlt, Qplus, Qopp, Qmult, e_up, e_dn, slack47; cbn [Qnum Qden];
+             rewrite ?Pos2Z.inj_mul, ?Z2Pos.id by lia.
 
 Lemma sfx_facts : forall K m, In ([K; 66%N], m) sfx_table ->
   num_char K = false /\ re_space K = false /\ bs_multiplier (lower_for_lookup 2 [K; 66%N]) = Some m /\
@@ -300,6 +300,7 @@ Proof.
   rewrite (proj2 (digit_char _ H1)), (proj2 (digit_char _ H2)).
   pose proof (Z_div_mod_eq_full q' 100). pose proof (Z_div_mod_eq_full (q' mod 100) 10). lia.
 Qed.
+
 
 (* ------------------------------------------------------------------------------------------------ *)
 (* 6. the round trip *)
@@ -366,30 +367,23 @@ Proof.
   assert (HQ : ((b' # 1) - (b # 1) <= (m # 1) * (1 # 200) + 1 + (b # 1) * slack47 /\
                 (b # 1) - (b' # 1) <= (m # 1) * (1 # 200) + 1 + (b # 1) * slack47 /\
                 (Rn # Z.to_pos Sr) <= (b # 1) + (m # 1) * (1 # 200) + (b # 1) * slack47)%Q).
-  { apply HC; clear HC.
-    - q2z. lia.
-    - q2z. lia.
-    - q2z. destruct Hmb as [Hmb|Hmb]; [unfold p51 in *; lia|]. unfold p51 in *. nia.
-    - q2z. unfold p51 in *. nia.
-    - q2z. unfold p51 in *. nia.
-    - q2z. subst D. nia.
-    - q2z. subst D. nia.
-    - q2z. unfold p51 in *. nia.
-    - q2z. unfold p51 in *. nia.
-    - q2z. unfold p51 in *. nia.
-    - q2z. unfold p51 in *. nia.
-    - q2z. nia.
-    - q2z. nia. }
+  { assert (X3 : m * p51 * S0 <= b * (p51 + 1) * S0).
+    { destruct Hmb as [Hmb|Hmb]; [apply Z.mul_le_mono_nonneg_r; unfold p51; lia|]. unfold p51 in *. lia. }
+    assert (X3' : m * p51 <= b * (p51 + 1)) by (apply (Z.mul_le_mono_pos_r _ _ S0 HS0); exact X3).
+    assert (X8 : V * 100 * p51 * m <= q' * Sv * (p51 + 1) * m) by (apply Z.mul_le_mono_nonneg_r; lia).
+    assert (X9 : q' * Sv * (p51 - 1) * m <= V * 100 * p51 * m) by (apply Z.mul_le_mono_nonneg_r; lia).
+    subst D. unfold p51 in *.
+    apply HC; clear HC; q2z'; lia. }
   destruct HQ as (HQ1 & HQ2 & HQ3).
   assert (Hov2 : two63 * Sr <=? Rn = false).
-  { apply Z.leb_gt. revert HQ3. q2z. intros HQ3.
+  { apply Z.leb_gt. revert HQ3. q2z'. intros HQ3.
     assert (Hm5 : m <= 1125899906842624) by (change (1024 ^ 5) with 1125899906842624 in Hm; lia).
     pose proof (Z_div_mod_eq_full b (2 ^ 47)). pose proof (Z.mod_pos_bound b (2 ^ 47) eq_refl).
     change (2 ^ 47) with 140737488355328 in *. change (2 ^ 63) with 9223372036854775808 in *.
     change (1024 ^ 5 / 200) with 5629499534213 in Htop. unfold two63. nia. }
   rewrite Hov2.
-  exists b', K, m. split; [exact Hin|]. split; [eexists; reflexivity|]. split; [reflexivity|].
-  revert HQ1 HQ2. q2z. intros HQ1 HQ2.
+  exists b', K, m. split; [exact Hin|]. split; [eexists; rewrite app_assoc; reflexivity|]. split; [reflexivity|].
+  revert HQ1 HQ2. q2z'. intros HQ1 HQ2.
   pose proof (Z_div_mod_eq_full b (2 ^ 47)). pose proof (Z.mod_pos_bound b (2 ^ 47) eq_refl).
   change (2 ^ 47) with 140737488355328 in *. lia.
 Qed.
